@@ -1,18 +1,114 @@
 (* C14 -- Every client request gets the reply computed for exactly that request.
-   Only statements; every proof is [exact] of a lemma of Api/RestProofs.v or
-   Api/RestConcProofs.v.
+   Only statements; every proof is [exact] of a lemma of the Api/*Proofs.v files.
 
-   Vocabulary (Api/Rest.v, Api/RestConc.v): [run fl w clients st l] executes a history
-   [l] of client requests (REST or websocket, any clients) one after the other;
-   [crun fl w clients (start st rd) sched] executes the requests [rd] that are in
-   flight together under the interleaving [sched] of their atomic steps;
-   [fixed_reply w clients cr] is the reply the registered handler produces for the content
-   of request [cr] alone; [all_fixed] is the code with the two proposed repairs,
-   [pinned] the code as it is. *)
-From Coq Require Import List String ZArith Bool.
+   Vocabulary.  Api/Spec.v: [spec_of w clients cr] is the SPECIFICATION of one request,
+   written from the property text: the registered handler applied to the decoding of that
+   request's content, or "an error" (class left open) for a request that is malformed,
+   mis-addressed or whose handler fails or panics; it mentions no server state and no
+   other request.  [satisfies ws s o]: reply [o] is what [s] demands.
+   Api/Rest.v, Api/RestConc.v: the MODELS.  [run fl w clients st l] executes a history [l]
+   of client requests one after the other; [crun fl w clients (start st rd) sched] executes
+   the requests [rd] that are in flight together under the interleaving [sched] of their
+   atomic steps; [all_fixed] is the code with the repairs F17 and F28 (what /repo contains
+   now), [pinned] the code before them; [fixed_reply w clients cr] is a model quantity: what
+   the repaired model answers to [cr] in its initial state. *)
+From Coq Require Import List String ZArith Bool Arith.
 Import ListNotations.
-From Onet Require Import Api.Rest Api.RestConc Api.RestProofs Api.RestConcProofs Api.Par Api.ParProofs Corr.C14 Api.CheckProofs.
+From Onet Require Import Api.Rest Api.RestConc Api.RestProofs Api.RestConcProofs Api.Par Api.ParProofs
+                         Api.Spec Api.SpecProofs Api.LiveProofs Corr.C14 Api.CheckProofs.
 Local Open Scope string_scope.
+
+(* ==== 1. The model refines the specification ============================================== *)
+
+(* Sequential form: whatever the history and whatever state an earlier history left, every
+   reply of the repaired model satisfies the specification of the request it answers. *)
+Theorem c14_seq_refines_spec : forall w clients l st,
+  wf_state w st ->
+  Forall2 (fun cr o => satisfies (req_is_ws cr) (spec_of w clients cr) o = true)
+          l (snd (run all_fixed w clients st l)).
+Proof. exact seq_refines_spec. Qed.
+Print Assumptions c14_seq_refines_spec.
+
+(* Concurrent form: any requests in flight together, ANY interleaving of the field writes
+   of their decodings and of their handler calls. *)
+Theorem c14_conc_refines_spec : forall w clients st rd sched i t rep,
+  wf_state w st ->
+  nth_error (g_threads (crun all_fixed w clients (start st rd) sched)) i = Some t ->
+  th_rep t = Some rep ->
+  exists cr, nth_error rd i = Some cr /\ satisfies (req_is_ws cr) (spec_of w clients cr) rep = true.
+Proof. exact conc_refines_spec. Qed.
+Print Assumptions c14_conc_refines_spec.
+
+(* The step that carries the content: the repaired model's reply to one request satisfies
+   that request's specification (case analysis over routing, method, content type, path
+   segment, JSON decoding, handler outcome, close-frame limit). *)
+Theorem c14_fixed_satisfies_spec : forall w clients cr,
+  satisfies (req_is_ws cr) (spec_of w clients cr) (fixed_reply w clients cr) = true.
+Proof. exact fixed_satisfies_spec. Qed.
+Print Assumptions c14_fixed_satisfies_spec.
+
+(* Every request IS answered: every schedule that gives the thread of request i its steps
+   (one per field write of its decoding, plus one) answers it, whatever the other threads
+   do in between; and in a state in which no thread can move every request has its reply.
+   Any variant of the code.  (That the real server takes its steps is observed, clause 4.) *)
+Theorem c14_every_request_answered : forall fl w clients st rd sched i cr,
+  nth_error rd i = Some cr ->
+  steps_of w cr <= count_occ Nat.eq_dec sched i ->
+  exists t rep, nth_error (g_threads (crun fl w clients (start st rd) sched)) i = Some t /\ th_rep t = Some rep.
+Proof. exact conc_every_request_answered. Qed.
+Print Assumptions c14_every_request_answered.
+
+Theorem c14_quiescent_all_answered : forall fl w clients g,
+  quiescent fl w clients g -> forall i t, nth_error (g_threads g) i = Some t -> answered t.
+Proof. exact quiescent_all_answered. Qed.
+Print Assumptions c14_quiescent_all_answered.
+
+(* What [satisfies] demands. *)
+Theorem c14_satisfies_ok : forall ws tag m o, satisfies ws (SOk tag m) o = true <-> o = ROk tag m.
+Proof. exact satisfies_ok. Qed.
+Print Assumptions c14_satisfies_ok.
+
+Theorem c14_satisfies_error : forall ws own o,
+  satisfies ws (SError own) o = true <->
+  reports_error ws o = true /\ (forall t, names_failure o = Some t -> own = Some t).
+Proof. exact satisfies_error. Qed.
+Print Assumptions c14_satisfies_error.
+
+(* ==== 2. The code before the repairs violates the same specification ====================== *)
+
+(* F17: POST {"S":"42"} then POST {}: the second request is answered with a success built
+   from the first request's field *)
+Theorem c14_rest_carryover_violates_spec :
+  let l := [post (BObj [("S", JStr "42" None)]); post (BObj [])] in
+  exists cr o, nth_error l 1 = Some cr /\
+               nth_error (snd (run pinned demo_world [CKind true true] (init_state demo_world) l)) 1 = Some o /\
+               violates demo_world [CKind true true] cr o.
+Proof. exact rest_carryover_violates_spec. Qed.
+Print Assumptions c14_rest_carryover_violates_spec.
+
+(* F17 under concurrency, both requests complete *)
+Theorem c14_conc_crosstalk_violates_spec :
+  let rd := [full_post "alice" 1; full_post "bob" 2] in
+  let g := crun pinned demo_world [CKind true true] (start (init_state demo_world) rd)
+                [0; 0; 0; 0; 1; 1; 1; 1; 0; 1] in
+  exists cr t o, nth_error rd 0 = Some cr /\ nth_error (g_threads g) 0 = Some t /\ th_rep t = Some o /\
+                 violates demo_world [CKind true true] cr o.
+Proof. exact conc_crosstalk_violates_spec. Qed.
+Print Assumptions c14_conc_crosstalk_violates_spec.
+
+(* F28: the valid request after a failed one on a kept connection gets no reply *)
+Theorem c14_keep_dead_violates_spec :
+  let clients := [CKind true true; CKind true true] in
+  let l := [wsreq 0 "a"; wsreq 0 "fail-1"; wsreq 0 "a"; wsreq 1 "a"] in
+  exists cr o, nth_error l 2 = Some cr /\
+               nth_error (snd (run pinned demo_world clients (init_state demo_world) l)) 2 = Some o /\
+               violates demo_world clients cr o.
+Proof. exact keep_dead_violates_spec. Qed.
+Print Assumptions c14_keep_dead_violates_spec.
+
+(* ==== 3. Structure of the repaired model (these follow by unfolding its definition: with
+   the repairs the model keeps nothing between requests; they are the lemmas the
+   refinement statements above are assembled from, not results of their own) =============== *)
 
 (* Sequential form: any history, from any state an earlier history left behind. *)
 Theorem c14_reply_is_function_of_request_seq : forall w clients l st,
@@ -44,15 +140,14 @@ Example c14_interleaving_example :
 Proof. exact conc_fixed_example. Qed.
 Print Assumptions c14_interleaving_example.
 
-(* The specification of a request looks at nothing but that request and the kind of
-   the client that sent it: no attribution to, and no content from, anybody else. *)
+(* [fixed_reply] looks at nothing but the request and the kind of its client. *)
 Theorem c14_spec_local : forall w clients clients' cr,
   nth_error clients (c_client cr) = nth_error clients' (c_client cr) ->
   fixed_reply w clients cr = fixed_reply w clients' cr.
 Proof. exact spec_local. Qed.
 Print Assumptions c14_spec_local.
 
-(* A failing, panicking or malformed request changes nobody else's reply. *)
+(* A failing, panicking or malformed request changes nobody else's reply in the repaired model. *)
 Theorem c14_failure_contained : forall w clients l1 cr l2,
   snd (run all_fixed w clients (init_state w) (l1 ++ cr :: l2)%list) =
   (snd (run all_fixed w clients (init_state w) l1) ++
@@ -163,9 +258,11 @@ Print Assumptions c14_check_decides.
 
 Theorem c14_sat_meaning : forall clients cr o,
   sat clients cr o <->
-  let s := fixed_reply c14_world clients cr in
-  reply_eqb s o = true \/
-  (is_ws cr = true /\ is_err s = true /\ exists t', o = RErr EAbnormal t').
+  match spec_of c14_world clients cr with
+  | SOk tag m => o = ROk tag m
+  | SError own => reports_error (req_is_ws cr) o = true /\
+                  (forall t, names_failure o = Some t -> own = Some t)
+  end.
 Proof. exact sat_meaning. Qed.
 Print Assumptions c14_sat_meaning.
 
@@ -330,7 +427,10 @@ Print Assumptions c14_par_quit_repaired_same_steps.
 
 (* ---- the panic barrier covers every kind of registered handler ----------------------------- *)
 
-(* callInterfaceFunc, ordinary and streaming handlers alike: a panic never leaves it ... *)
+(* The model of callInterfaceFunc turns a panic into an error for ordinary and streaming
+   handlers alike.  This is how the model is written (immediate from its definition); what
+   ties it to the code is the correspondence: panicking streaming handlers, at the first and
+   at later messages of a conversation, are run on every check. *)
 Theorem c14_barrier_all_kinds : forall streaming h m, call_interface true streaming h m <> CCrash.
 Proof. exact barrier_all_kinds. Qed.
 Print Assumptions c14_barrier_all_kinds.
@@ -345,7 +445,8 @@ Theorem c14_conversation_never_dead : forall msgs, snd (conversation true msgs) 
 Proof. exact conversation_never_dead. Qed.
 Print Assumptions c14_conversation_never_dead.
 
-(* refuted when the recover is installed after the streaming branch is taken *)
+(* the variant with the recover installed after the streaming branch is a hypothetical
+   change (seeded change C14-B/D), not a defect of any revision of /repo *)
 Theorem c14_barrier_streaming_lost_refuted :
   exists h m, call_interface false true h m = CCrash /\ call_interface false false h m <> CCrash.
 Proof. exact barrier_streaming_lost_refuted. Qed.
